@@ -9,7 +9,7 @@ m={'C01':'tree','C02':'tree','C03':'tree','C04':'seq','C05':'seq','C06':'seq','C
 print(m['$p'])")
 E=$(ls -d "$V"/build/$eng-plain-*/$eng | head -1)
 L=$(mktemp -d /tmp/vglog.XXXXXX)
-valgrind -q --error-exitcode=78 --trace-children=yes --log-file=$L/vg.%p.log "$E" batch --prop "$p" --runs "$n" --workers 8 --det 0 --out /tmp/vgp_$$ --evidence /tmp/vgp_$$.json --known "$V"/known_findings.txt | tail -1 | cut -c1-160
+valgrind -q --error-exitcode=78 --trace-children=yes --log-file=$L/vg.%p.log "$E" batch --prop "$p" --runs "$n" --workers 8 --det 0 --item-timeout 900 --out /tmp/vgp_$$ --evidence /tmp/vgp_$$.json --known "$V"/known_findings.txt | tail -1 | cut -c1-160
 errs=$(cat $L/vg.*.log 2>/dev/null | grep -c "^==[0-9]*== [A-Z]")
 if [ "$errs" -gt 0 ]; then echo "VALGRIND-ERRORS $p: $errs report lines"; cat $L/vg.*.log | head -40; rc=1; else echo "VALGRIND-CLEAN $p ($n items)"; rc=0; fi
 rm -rf $L /tmp/vgp_$$ /tmp/vgp_$$.json
